@@ -376,6 +376,18 @@ def run_batch(v, drv, name, sched_text, seed, lock, kf_listed):
         if os.path.exists(tr):
             save_replay(PROP, name + ".ndjson", src=tr)
         fails = [x for x in err.splitlines() if "ORACLE-FAIL" in x][:4]
+        if rc == 2 and os.path.exists(tr):
+            # what does the specification say about this history?
+            try:
+                hdr, recs = prep_trace(tr, tr + ".p")
+                rv = validate_trace("IoTrace.tla", "IoTrace.cfg", tr + ".p", header=hdr, timeout=300, metaname="c14trf_" + name)
+                lines = open(rv.trace_with_header).read().splitlines()
+                k = rv.maxl or 1
+                fails.append("trace validation: " + ("accepted by Io.tla" if rv.accepted else
+                             "%s at record %d: %s" % (("invariant %s violated" % rv.violated) if rv.violated else "no behaviour of Io.tla explains the history",
+                                                       k, " | ".join(lines[max(1, k - 3):k])[-400:])))
+            except Broken as b:
+                fails.append("trace validation: not available (%s)" % str(b)[:80])
         with lock:
             v.violation("%s (driver seed %d, %s): %s" % (what, seed, name, " || ".join(fails) or err.strip()[-300:]), p)
         return
